@@ -200,7 +200,7 @@ def r4(c):
     }
     seen = set()
     n = 0
-    for m, q, fn in repo.all_functions():
+    for m, q, fn in repo.all_functions(canon=True):
         for call in calls_in(fn):
             if call_name(call).split(".")[-1] != "make_diff":
                 continue
@@ -213,6 +213,8 @@ def r4(c):
             kind = table.get((m.name, q))
             seen.add((m.name, q))
             arg = call.args[3] if len(call.args) > 3 else kwarg(call, "acl_rules_list")
+            if isinstance(arg, ast.Name):
+                arg = Provenance(fn).resolve_alias(arg)
             at = repo.loc(m, call)
             if kind is None:
                 c.notes.append(f"UNCLASSIFIED make_diff call site {m.name}:{q} at {at} (ACL list: {norm(arg) if arg is not None else '?'})")
